@@ -10,6 +10,7 @@ import (
 	"golang.org/x/tools/go/ssa"
 
 	"verif/internal/core"
+	"verif/internal/load"
 )
 
 // Token typestate of the goroutine executing a function with respect to one state word.
@@ -51,6 +52,11 @@ type wordSpec struct {
 	initv      int64 // -1 if none
 	names      map[int64]string
 	universe   intSet
+	// gated: teardown wrappers of the owner type — functions whose every teardown call is
+	// dominated by the success edge of a once gate (CAS 0->1 on a field nothing else writes).
+	// A call of such a function is a teardown that provably runs at most once per object; the
+	// call site still has to prove exclusivity (token holder, or outsider that saw Sleep).
+	gated map[*ssa.Function]string
 }
 
 type tsResult struct {
@@ -59,6 +65,7 @@ type tsResult struct {
 	ops   map[ssa.Instruction]*stateOp
 	fn    *ssa.Function
 	notes []string
+	lost  map[Edge]bool // edges on which a swap->Terminated is known to have found Terminated (somebody else finalises)
 }
 
 // edge effects
@@ -121,6 +128,38 @@ func tsAnalyze(f *ssa.Function, ws wordSpec, ops []stateOp, entry uint16) *tsRes
 			}
 		}
 	}
+	// value-set refinement of the swapped-out value: on an edge into a block where the set of possible
+	// old values excludes Terminated the election is won, where it is exactly {Terminated} it is lost
+	// (covers `old != Sleep -> return`, switch forms, ...)
+	for _, op := range res.ops {
+		if op.Kind != "swap" || op.Result == nil || !op.HasNew || op.New != ws.terminated {
+			continue
+		}
+		sets := refineSets(op.Result, ws.universe)
+		for _, b := range f.Blocks {
+			for i, succ := range b.Succs {
+				set, ok := sets[succ]
+				if !ok || len(succ.Preds) != 1 {
+					continue
+				}
+				e := Edge{b, i}
+				already := false
+				for _, x := range fx[e] {
+					if x.op == op {
+						already = true
+					}
+				}
+				if already {
+					continue
+				}
+				if !set[ws.terminated] && len(set) > 0 {
+					fx[e] = append(fx[e], edgeFx{"old-not-T", op})
+				} else if len(set) == 1 && set[ws.terminated] {
+					fx[e] = append(fx[e], edgeFx{"old-is-T", op})
+				}
+			}
+		}
+	}
 	apply := func(s uint16, e edgeFx) uint16 {
 		var out uint16
 		for bit := uint16(1); bit <= tsDead; bit <<= 1 {
@@ -155,6 +194,14 @@ func tsAnalyze(f *ssa.Function, ws wordSpec, ops []stateOp, entry uint16) *tsRes
 		}
 		return out
 	}
+	res.lost = map[Edge]bool{}
+	for e, list := range fx {
+		for _, x := range list {
+			if x.kind == "old-is-T" {
+				res.lost[e] = true
+			}
+		}
+	}
 	if len(f.Blocks) == 0 {
 		return res
 	}
@@ -176,6 +223,20 @@ func tsAnalyze(f *ssa.Function, ws wordSpec, ops []stateOp, entry uint16) *tsRes
 				// already pending/final/dead states stay
 				n |= s & (tsPendH | tsPendO | tsFinalH | tsFinalO | tsDead)
 				s = n
+			}
+			if cc := callCommon(in); cc != nil && len(ws.gated) > 0 {
+				if sf := staticCallee(cc); sf != nil && ws.gated[sf] != "" {
+					// after the once-gated teardown the goroutine is a finaliser: no handler callback may follow
+					var n uint16
+					if s&tsHeld != 0 {
+						n |= tsFinalH
+					}
+					if s&(tsPendO) != 0 {
+						n |= tsFinalO
+					}
+					n |= s &^ (tsHeld | tsPendO)
+					s = n
+				}
 			}
 		}
 		return s
@@ -363,6 +424,75 @@ func checkWord(a *Anchors, r *core.Report, prefix string, ws wordSpec, loop, wak
 			}
 		})
 	}
+	// once-gated teardown wrappers
+	gateOf := map[ssa.Instruction]string{} // teardown call inside a wrapper -> description of its gate
+	ws.gated = map[*ssa.Function]string{}
+	{
+		gates := onceGates(p, ws.owner, ws.field)
+		byFn := map[*ssa.Function][]*tsCallback{}
+		for _, cb := range cbs {
+			byFn[cb.in.Parent()] = append(byFn[cb.in.Parent()], cb)
+		}
+		for f, list := range byFn {
+			if f == loop || f.Parent() != nil || !recvIs(f, ws.owner) || len(f.Params) == 0 {
+				continue
+			}
+			hasWordOp := false
+			for _, op := range ops {
+				if op.Fn == f && op.Kind != "load" && op.Kind != "plainload" {
+					hasWordOp = true
+				}
+			}
+			if hasWordOp {
+				continue
+			}
+			all := true
+			desc := ""
+			for _, cb := range list {
+				if cb.kind != "term" {
+					all = false
+					break
+				}
+				ok := false
+				for fld, gops := range gates {
+					for _, g := range gops {
+						if g.Fn != f || g.Result == nil || canon(g.Base) != ssa.Value(f.Params[0]) {
+							continue
+						}
+						t, _, c := boolEdges(g.Result)
+						if c && edgesDominate(t, cb.in) {
+							ok = true
+							desc = "CAS " + fld + " 0->1"
+							gateOf[cb.in] = desc
+						}
+					}
+				}
+				if !ok {
+					all = false
+				}
+			}
+			if all && len(list) > 0 {
+				ws.gated[f] = desc
+			}
+		}
+		// a call of a wrapper is a teardown site of the caller
+		for _, f := range p.SrcFuncs {
+			eachInstr(f, func(in ssa.Instruction) {
+				cc := callCommon(in)
+				if cc == nil {
+					return
+				}
+				if sf := staticCallee(cc); sf != nil && ws.gated[sf] != "" {
+					if _, isGo := in.(*ssa.Go); isGo {
+						cbs = append(cbs, &tsCallback{in, "go " + sf.Name(), "term"}) // never accepted: a new goroutine holds nothing
+					} else {
+						cbs = append(cbs, &tsCallback{in, sf.Name(), "term-gated"})
+					}
+					fnset[f] = true
+				}
+			})
+		}
+	}
 	results := map[*ssa.Function]*tsResult{}
 	var fns []*ssa.Function
 	for f := range fnset {
@@ -406,6 +536,74 @@ func checkWord(a *Anchors, r *core.Report, prefix string, ws wordSpec, loop, wak
 			r.Bad(ruleP3, key, fname(wake), pos, ws.what+": the runner goroutine is started holding the token", "the go statement that starts the runner is reachable without a successful CAS Sleep->Running: two runners can execute callbacks at the same time")
 		}
 	}
+	// ---- P5h: a failed release is a hand-over — the runner finishes the termination itself.
+	// When the release CAS Running->Sleep fails, somebody outside has taken the word away from the
+	// holder (Kill: Zombee, meta start: Terminated) and, the holder being alive, has not torn the
+	// process down (P5: outsiders finalise only what they found in Sleep/Init). Every path from the
+	// failure edge to the end of the runner therefore passes a teardown, unless a swap found
+	// Terminated there (then the teardown has been done).
+	if loop != nil {
+		ruleH := prefix + ".P5h handed-over-termination-is-finished"
+		isTeardown := map[ssa.Instruction]bool{}
+		for _, cb := range cbs {
+			if cb.kind == "term" || cb.kind == "term-gated" {
+				isTeardown[cb.in] = true
+			}
+		}
+		n := 0
+		for i := range ops {
+			op := &ops[i]
+			if op.Fn != loop || op.Kind != "cas" || op.Old != ws.running || op.New != ws.sleep || op.Result == nil {
+				continue
+			}
+			n++
+			key := fmt.Sprintf("%s|%s|release#%d", strings.SplitN(ruleH, " ", 2)[0], fname(loop), n)
+			pos := p.Pos(op.In.Pos())
+			inst := ws.what + ": when the release fails the runner tears the process down on every path"
+			_, fl, c := boolEdges(op.Result)
+			if !c || len(fl) == 0 {
+				r.Unk(ruleH, key, fname(loop), pos, inst, "the result of the release CAS is not a plain branch condition")
+				continue
+			}
+			res := results[loop]
+			seen := map[*ssa.BasicBlock]bool{}
+			var bad ssa.Instruction
+			var walk func(b *ssa.BasicBlock)
+			walk = func(b *ssa.BasicBlock) {
+				if seen[b] || bad != nil {
+					return
+				}
+				seen[b] = true
+				for _, in := range b.Instrs {
+					if isTeardown[in] {
+						return
+					}
+					if isReturn(in) {
+						bad = in
+						return
+					}
+					if _, ok := in.(*ssa.Panic); ok {
+						return
+					}
+				}
+				for i, s := range b.Succs {
+					if res != nil && res.lost[Edge{b, i}] {
+						continue
+					}
+					walk(s)
+				}
+			}
+			for _, e := range fl {
+				walk(e.To())
+			}
+			if bad != nil {
+				r.Bad(ruleH, key, fname(loop), pos, inst, "the runner can return at "+p.Pos(bad.Pos())+" after a failed release without any teardown: the process was taken over (kill / termination handed over by the outsider) and nobody finishes it — no terminate callback, links and monitors are never told")
+			} else {
+				r.OK(ruleH, key, fname(loop), pos, inst, fmt.Sprintf("every path from the failure edge reaches a teardown call (or the lost-election edge of a swap) before the goroutine ends; %d blocks", len(seen)))
+			}
+		}
+	}
+
 	seq = map[string]int{}
 	for _, cb := range cbs {
 		f := cb.in.Parent()
@@ -431,6 +629,10 @@ func checkWord(a *Anchors, r *core.Report, prefix string, ws wordSpec, loop, wak
 					st = ps
 				}
 			}
+			if g, ok := gateOf[cb.in]; ok && ws.gated[f] != "" {
+				r.OK(ruleP5, key, fn, pos, inst, "at most once per object: dominated by the success edge of the once gate "+g+" (the field has no other writer); who may run it is decided at every call site of "+f.Name())
+				continue
+			}
 			switch {
 			case st == tsFinalH:
 				r.OK(ruleP5, key, fn, pos, inst, "dominated by swap->Terminated with old != Terminated, executed by the token holder")
@@ -445,8 +647,89 @@ func checkWord(a *Anchors, r *core.Report, prefix string, ws wordSpec, loop, wak
 			default:
 				r.Bad(ruleP5, key, fn, pos, inst, "possible states at the call: "+tsString(st)+" — the teardown is not dominated by a swap to Terminated whose old value was tested, so it can run twice or next to a handler")
 			}
+		case "term-gated":
+			// the callee runs its teardown at most once per object (once gate); here: exclusivity
+			key := fmt.Sprintf("%s|%s|%s#%d", strings.SplitN(ruleP5, " ", 2)[0], fn, cb.name, seq[fn+cb.name])
+			inst := fmt.Sprintf("%s: the once-gated teardown %s is started only by the token holder after the word is Terminated, or by an outsider that found the word in Sleep", ws.what, cb.name)
+			if st == tsNone && f.Parent() != nil && f != loop {
+				if ps := inheritedState(f, results); ps != 0 {
+					st = ps
+				}
+			}
+			switch {
+			case st != 0 && st&^(tsHeld|tsFinalH) == 0:
+				// holder: the word must already be Terminated (nobody is told 'alive' about a process being torn down,
+				// and an outsider's swap then loses): a store/swap ->Terminated dominates, or the failure edge of the release CAS
+				okT := false
+				why := ""
+				for i := range ops {
+					op := &ops[i]
+					if op.Fn != f {
+						continue
+					}
+					if (op.Kind == "store" || op.Kind == "swap") && op.HasNew && op.New == ws.terminated && instrDominates(op.In, cb.in) {
+						okT, why = true, opDesc(*op)+" dominates the call"
+					}
+					if op.Kind == "cas" && op.Old == ws.running && op.New == ws.sleep && op.Result != nil {
+						if _, fl, c := boolEdges(op.Result); c && edgesDominate(fl, cb.in) {
+							okT, why = true, "reached only through the failure edge of the release CAS (the only foreign transition out of Running is the swap to Terminated, which hands the teardown over)"
+						}
+					}
+				}
+				if okT {
+					r.OK(ruleP5, key, fn, pos, inst, "token holder ("+tsString(st)+"); "+why)
+				} else {
+					r.Bad(ruleP5, key, fn, pos, inst, "the token holder starts the teardown while the word may still be Running: senders are told the process is alive and an outsider's swap to Terminated would hand over a teardown that already ran")
+				}
+			case st != 0 && st&^(tsPendO|tsFinalO) == 0:
+				msg, set := outsiderOldSet(f, results, ws, ops, cb.in)
+				if msg == "" {
+					r.OK(ruleP5, key, fn, pos, inst, "outsider; old state on every path to the call is in "+set+" (no runner exists and none can start: the word is Terminated)")
+				} else {
+					r.Bad(ruleP5, key, fn, pos, inst, msg)
+				}
+			default:
+				r.Bad(ruleP5, key, fn, pos, inst, "possible states at the call: "+tsString(st)+" — the caller neither holds the token nor has swapped the word to Terminated and found Sleep: the terminate callback can run next to a handler")
+			}
 		}
 	}
+}
+
+// onceGates: integer fields of owner (other than the state word) whose every write in the module is
+// an atomic compare-and-swap 0 -> 1: the success edge is taken at most once per object.
+func onceGates(p *load.Program, owner *types.Named, stateFld string) map[string][]stateOp {
+	out := map[string][]stateOp{}
+	st, ok := owner.Underlying().(*types.Struct)
+	if !ok {
+		return out
+	}
+	for i := 0; i < st.NumFields(); i++ {
+		fl := st.Field(i)
+		b, ok := fl.Type().Underlying().(*types.Basic)
+		if !ok || b.Kind() != types.Int32 || fl.Name() == stateFld {
+			continue
+		}
+		ops := stateOps(p, owner, fl.Name())
+		var cas []stateOp
+		good := true
+		for _, op := range ops {
+			switch op.Kind {
+			case "load", "plainload":
+			case "cas":
+				if op.Old == 0 && op.New == 1 {
+					cas = append(cas, op)
+				} else {
+					good = false
+				}
+			default:
+				good = false
+			}
+		}
+		if good && len(cas) > 0 {
+			out[fl.Name()] = cas
+		}
+	}
+	return out
 }
 
 // inheritedState: for a closure created in parent and started by go/defer/call there, the
